@@ -50,6 +50,8 @@ pub struct Msg {
     pub spec: Option<CommitSpec>,
     pub pspec: Option<PropSpec>,
     pub time: u64,
+    /// generation of the sender's ratchet this private message was encrypted with (model)
+    pub gen: u32,
 }
 
 #[derive(Clone, Debug, PartialEq, Eq)]
@@ -93,6 +95,8 @@ pub struct Durable {
     pub pending: Option<u64>,
     pub accepted: BTreeSet<u64>,
     pub valid: bool,
+    pub sent_gen: BTreeMap<(u64, bool), u32>,
+    pub ratchet_pos: BTreeMap<(usize, u64, bool), u32>,
 }
 
 pub struct Mem {
@@ -111,6 +115,10 @@ pub struct Mem {
     pub detached: Vec<(u64, Vec<u8>)>,
     /// private messages sent since the last write (a crash now rolls the sender's ratchet back)
     pub unwritten_sends: u32,
+    /// next generation of this member's own ratchets: (epoch, application?) -> generation
+    pub sent_gen: BTreeMap<(u64, bool), u32>,
+    /// receiver side: next expected generation per (sender, epoch, application?)
+    pub ratchet_pos: BTreeMap<(usize, u64, bool), u32>,
 }
 
 impl Default for Mem {
@@ -129,6 +137,8 @@ impl Default for Mem {
             join_epoch: 0,
             detached: vec![],
             unwritten_sends: 0,
+            sent_gen: Default::default(),
+            ratchet_pos: Default::default(),
         }
     }
 }
@@ -411,6 +421,13 @@ impl World {
         SimCrypto::new(self.cfg.providers[0], self.idgen_ctx.clone())
             .cipher_suite_provider(self.suite)
             .expect("suite")
+    }
+
+    pub fn next_gen(&mut self, p: usize, g: usize, epoch: u64, app: bool) -> u32 {
+        let e = self.mem(p, g).sent_gen.entry((epoch, app)).or_insert(0);
+        let v = *e;
+        *e += 1;
+        v
     }
 
     pub fn new_msg_id(&mut self) -> u64 {
@@ -919,6 +936,7 @@ impl World {
                     spec: Some(spec.clone()),
                     pspec: None,
                     time: self.clock,
+                    gen: if private { self.next_gen(p, g, epoch, false) } else { 0 },
                 };
                 self.ev(format!(
                     "commit P{p} g{g} e{epoch} ok id={id} path={} welcomes={} unused={} h={}",
@@ -1026,6 +1044,7 @@ impl World {
         let extra = crate::oracles::proposal_extras(self, p, g, spec)?;
         let pre = crate::oracles::before_op(self, p, g, "propose")?;
         crypto::rec_set_phase(self.step_no as u64);
+        let _ = crypto::rec_take_events();
         let new_id = if let PropSpec::Update { new_identity: true } = spec {
             let csp = self.idgen_suite();
             csp.signature_key_generate().ok().map(|(sk, pk)| {
@@ -1124,6 +1143,7 @@ impl World {
                     spec: None,
                     pspec: Some(spec.clone()),
                     time: self.clock,
+                    gen: if private { self.next_gen(p, g, epoch, false) } else { 0 },
                 };
                 self.msgs.insert(id, msg);
                 self.groups[g].props.entry(epoch).or_default().push(id);
@@ -1579,12 +1599,18 @@ impl World {
                             ));
                         }
                         self.parties[p].mems[g].accepted.insert(id);
+                        let e = self.parties[p].mems[g].ratchet_pos.entry((msg.sender, msg.epoch, true)).or_insert(0);
+                        *e = (*e).max(msg.gen + 1);
                         if msg.epoch < epoch {
                             self.stats.probe("late-app-decrypted");
                         }
                     }
                     (MsgKind::Proposal, ReceivedMessage::Proposal(d)) => {
                         self.parties[p].mems[g].cached.insert(id);
+                        if msg.private {
+                            let e = self.parties[p].mems[g].ratchet_pos.entry((msg.sender, msg.epoch, false)).or_insert(0);
+                            *e = (*e).max(msg.gen + 1);
+                        }
                         crate::oracles::after_proposal_received(self, p, g, id, &d)?;
                     }
                     (k, _) => {
@@ -1637,16 +1663,22 @@ impl World {
     }
 
     fn do_send_app(&mut self, p: usize, g: usize, len: u16, aad_len: u8) -> VResult<bool> {
+        self.send_app_inner(p, g, len, aad_len, false)
+    }
+
+    /// `front`: the message overtakes everything queued for its receivers (reordering fault)
+    pub fn send_app_inner(&mut self, p: usize, g: usize, len: u16, aad_len: u8, front: bool) -> VResult<bool> {
         if !self.live(p, g) {
             return Ok(false);
         }
         let prop = self.cfg.property.clone();
         let epoch = self.epoch_of(p, g).unwrap();
-        let mut r = Prng::new(mix(&[self.seed, 0xa99, self.step_no as u64]));
+        let mut r = Prng::new(mix(&[self.seed, 0xa99, self.step_no as u64, self.sub]));
         let payload = r.bytes(len as usize);
         let aad = r.bytes(aad_len as usize);
         let pre = crate::oracles::before_op(self, p, g, "send_app")?;
         crypto::rec_set_phase(self.step_no as u64);
+        let _ = crypto::rec_take_events();
         let res = crate::oracles::lib_call(self, p, Some(g), "encrypt_application_message", |w| {
             let mut group = w.parties[p].mems[g].group.take().unwrap();
             let res = guarded(&prop, "encrypt_application_message", || {
@@ -1701,6 +1733,7 @@ impl World {
                     spec: None,
                     pspec: None,
                     time: self.clock,
+                    gen: self.next_gen(p, g, epoch, true),
                 };
                 self.msgs.insert(id, msg);
                 self.groups[g].apps.push(id);
@@ -1712,7 +1745,11 @@ impl World {
                     .unwrap_or_default();
                 for q in members {
                     if q != p {
-                        self.mem(q, g).inbox.push(id);
+                        if front {
+                            self.mem(q, g).inbox.insert(0, id);
+                        } else {
+                            self.mem(q, g).inbox.push(id);
+                        }
                     }
                 }
                 crate::oracles::after_sent(self, p, g, id)?;
@@ -1747,6 +1784,8 @@ impl World {
                     pending: m.pending,
                     accepted: m.accepted.clone(),
                     valid: true,
+                    sent_gen: m.sent_gen.clone(),
+                    ratchet_pos: m.ratchet_pos.clone(),
                 };
                 m.unwritten_sends = 0;
                 self.ev(format!("write P{p} g{g} ok"));
@@ -1847,6 +1886,8 @@ impl World {
                 m.cached = m.durable.cached.clone();
                 m.pending = m.durable.pending;
                 m.accepted = m.durable.accepted.clone();
+                m.sent_gen = m.durable.sent_gen.clone();
+                m.ratchet_pos = m.durable.ratchet_pos.clone();
                 self.stats.fault("P-RELOAD");
                 self.ev(format!("reload P{p} g{g} ok e{epoch}"));
                 // re-enqueue proposals of the current epoch that were lost with the crash
@@ -2037,6 +2078,7 @@ impl World {
                     spec: None,
                     pspec: None,
                     time: self.clock,
+                    gen: 0,
                 };
                 self.msgs.insert(id, msg);
                 self.ext.commit_has_path.insert(id, true);
